@@ -121,11 +121,10 @@ theorem sum_map_const_add_add (l : List α) (g1 g2 : α → α) (c : α) :
   | nil => simp
   | cons a l ih => simp only [List.map_cons, List.sum_cons, List.length_cons, Nat.cast_succ, ih]; ring
 
-/-- on the pooled array the scan's target is the first ensemble's own mid-rank sum `m(m+1)/2` plus the
-pairwise comparison with the second ensemble -/
-theorem relSpec_pool (e1 e2 : List α) :
-    relSpec e1.length 0 (pool e1 e2)
-      = ((e1.length : α) + 1) * (e1.length : α) / 2 + wm e1 e2 := by
+/-- on the pooled array the scan's target is the sum of the pooled mid-ranks `½ + Σ_b ([b<a] + ½[a=b])`
+of the members `a` of the first ensemble -/
+theorem relSpec_pool_midranks (e1 e2 : List α) :
+    relSpec e1.length 0 (pool e1 e2) = (e1.map fun a => 1 / 2 + rowScore a (e1 ++ e2)).sum := by
   have hfst : (pool e1 e2).map Prod.fst = e1 ++ e2 := List.zipIdx_map_fst 0 _
   unfold relSpec
   have hrow : ∀ x : α × ℕ, rowP x.1 (pool e1 e2) = rowScore x.1 (e1 ++ e2) := by
@@ -135,10 +134,18 @@ theorem relSpec_pool (e1 e2 : List α) :
   rw [List.zipIdx_append, List.map_append, List.sum_append]
   rw [sum_zipIdx_lt e1.length (fun a => ((0 : ℕ) : α) + 1 / 2 + rowScore a (e1 ++ e2)) e1 0 (by omega)]
   rw [sum_zipIdx_ge e1.length (fun a => ((0 : ℕ) : α) + 1 / 2 + rowScore a (e1 ++ e2)) e2 (0 + e1.length) (by omega)]
+  simp
+
+/-- ... which is the first ensemble's own mid-rank sum `m(m+1)/2` plus the pairwise comparison with the
+second ensemble -/
+theorem relSpec_pool (e1 e2 : List α) :
+    relSpec e1.length 0 (pool e1 e2)
+      = ((e1.length : α) + 1) * (e1.length : α) / 2 + wm e1 e2 := by
+  rw [relSpec_pool_midranks]
   simp only [rowScore_append]
-  rw [sum_map_const_add_add, add_zero]
-  change ((e1.length : α)) * (((0 : ℕ) : α) + 1 / 2) + wm e1 e1 + wm e1 e2 = _
+  rw [sum_map_const_add_add]
+  change ((e1.length : α)) * (1 / 2) + wm e1 e1 + wm e1 e2 = _
   rw [wm_self]
-  push_cast; ring
+  ring
 
 end HydroVerif.C10
